@@ -280,4 +280,53 @@ theorem renderMode_canon (c : Cfg) (i : Subst → PStr → PStr) (m : Mode) (par
   | contents => cases n <;> simp only [canon, kidsOf, renderL_canon]
   | prettyContents lv => cases n <;> simp only [canon, kidsOf, prettyItemsL_canon]
 
+/-! ### the `attributes()` hook -/
+
+theorem formatTagHook_default (c : Cfg) (i : Subst → PStr → PStr) (n p : PStr) (as : List (PStr × AttrVal)) (e o : Bool) :
+    formatTagHook (attributes c) c i n p as e o = formatTag c i n p as e o := rfl
+
+mutual
+theorem renderHook_default (c : Cfg) (i : Subst → PStr → PStr) (par : Option PStr) (n : Node) :
+    renderHook (attributes c) c i par n = render c i par n := by
+  cases n with
+  | str k v => simp [renderHook, render]
+  | tag nm p as cbe pre ks => simp only [renderHook, render, formatTagHook_default, renderHookL_default c i (some nm) ks]
+theorem renderHookL_default (c : Cfg) (i : Subst → PStr → PStr) (par : Option PStr) (l : List Node) :
+    renderHookL (attributes c) c i par l = renderL c i par l := by
+  cases l with
+  | nil => simp [renderHookL, renderL]
+  | cons k ks => simp only [renderHookL, renderL, renderHook_default c i par k, renderHookL_default c i par ks]
+end
+
+mutual
+/-- two trees that differ at most in attribute lists on which the hook gives the same answer -/
+inductive SameUpToHook (h : AttrHook) : Node → Node → Prop
+  | str (k : StrKind) (v : PStr) : SameUpToHook h (.str k v) (.str k v)
+  | tag (n p : PStr) (as₁ as₂ : List (PStr × AttrVal)) (cbe pre : Bool) (ks₁ ks₂ : List Node) :
+      h as₁ = h as₂ → SameUpToHookL h ks₁ ks₂ → SameUpToHook h (.tag n p as₁ cbe pre ks₁) (.tag n p as₂ cbe pre ks₂)
+inductive SameUpToHookL (h : AttrHook) : List Node → List Node → Prop
+  | nil : SameUpToHookL h [] []
+  | cons (a b : Node) (as bs : List Node) : SameUpToHook h a b → SameUpToHookL h as bs → SameUpToHookL h (a :: as) (b :: bs)
+end
+
+theorem sameUpToHookL_length {h : AttrHook} : ∀ l l', SameUpToHookL h l l' → l.length = l'.length
+  | _, _, .nil => rfl
+  | _, _, .cons _ _ as bs _ h2 => by simp [sameUpToHookL_length as bs h2]
+
+mutual
+/-- if the hook gives the same answer for the attribute lists of two trees (tag by tag), the outputs agree -/
+theorem renderHook_congr (h : AttrHook) (c : Cfg) (i : Subst → PStr → PStr) (par : Option PStr) :
+    ∀ t t', SameUpToHook h t t' → renderHook h c i par t = renderHook h c i par t'
+  | _, _, .str k v => rfl
+  | _, _, .tag n p as₁ as₂ cbe pre ks₁ ks₂ ha hk => by
+    have hl := sameUpToHookL_length ks₁ ks₂ hk
+    have he : ks₁.isEmpty = ks₂.isEmpty := by cases ks₁ <;> cases ks₂ <;> simp_all
+    simp only [renderHook, formatTagHook, attrStringHook, ha, he, renderHookL_congr h c i (some n) ks₁ ks₂ hk]
+theorem renderHookL_congr (h : AttrHook) (c : Cfg) (i : Subst → PStr → PStr) (par : Option PStr) :
+    ∀ l l', SameUpToHookL h l l' → renderHookL h c i par l = renderHookL h c i par l'
+  | _, _, .nil => rfl
+  | _, _, .cons a b as bs h1 h2 => by
+    simp only [renderHookL, renderHook_congr h c i par a b h1, renderHookL_congr h c i par as bs h2]
+end
+
 end BS.Formatter
